@@ -318,9 +318,53 @@ func constructorScenario() *mc.Scenario {
 		}}
 }
 
+// massScenario: a writer holds, n readers (n = rwRatio) queue behind it, the writer releases: ALL of them
+// fit and must be admitted by that one release - every reader keeps its token until all n are inside,
+// so a hand-off that stops early leaves the rest parked forever (deadlock).  One default schedule.
+func massScenario(mm mkMap, n int) *mc.Scenario {
+	return &mc.Scenario{Name: fmt.Sprintf("%s/ratio=%d/mass-admission/W-holds|%d-readers-queue", mm.name, n, n), PB: [2]int{0, 0}, FB: [2]int{-1, -1}, NoStateCache: true,
+		Main: func(w *mc.World) {
+			m := mm.mk(n)
+			h, err := m.AcquireWrite(vctx.New(), 1)
+			if err != nil {
+				w.Failf("writer refused: %v", err)
+			}
+			inside := 0
+			for i := 0; i < n; i++ {
+				w.Go(fmt.Sprintf("reader%d", i), func() {
+					rh, err := m.AcquireRead(vctx.New(), 1)
+					if err != nil {
+						w.Failf("reader refused: %v", err)
+					}
+					w.Touch()
+					inside++
+					vsync.BlockOn(func() bool { return inside == n })
+					m.ReleaseRead(1, rh)
+				})
+			}
+			// let every reader park behind the writer, then release once
+			vsync.BlockOn(func() bool {
+				parked := 0
+				for _, t := range w.S.Threads() {
+					if t != w.S.Threads()[0] && w.S.IsBlocked(t) {
+						parked++
+					}
+				}
+				return parked == n
+			})
+			m.ReleaseWrite(1, h)
+			w.Join()
+		}}
+}
+
 func scenarios() []*mc.Scenario {
 	var scs []*mc.Scenario
 	scs = append(scs, constructorScenario())
+	for _, mm := range maps() {
+		for _, n := range []int{3, 10, 11, 12, 33} {
+			scs = append(scs, massScenario(mm, n))
+		}
+	}
 	for _, mm := range maps() {
 		// keys: integers for modulo routing (1 and 7 collide for 1,2,3 shards; 1 and 2 differ for 2 and 3 shards), strings for xxhash
 		type kp struct{ a, b interface{} }
@@ -356,7 +400,7 @@ func scenarios() []*mc.Scenario {
 
 func main() {
 	r := ev.Start("C01")
-	r.Rule("every interleaving (at each mutex / select / channel point, every select resolution, up to the stated preemption bound) of 2-4 callers doing AcquireRead/AcquireWrite - hold - Release, plus environment threads cancelling contexts, on the real SemMap / WideSemMap / WideXHashSemMap for rwRatio 1,2,3, MaxInt/2+1, MaxInt and 1,2,3 shards; oracles: per-key holder counters at every entry, arrival-order (a call issued after another was observed queued must not be admitted while that one still waits), failed acquire never enters, deadlock = lost hand-off, entry residue at every scheduling decision and at the end, leaked-token probe; distinct = (status, who entered with which holder counts) signatures")
+	r.Rule("every interleaving (at each mutex / select / channel point, every select resolution, up to the stated preemption bound) of 2-4 callers doing AcquireRead/AcquireWrite - hold - Release, plus environment threads cancelling contexts, on the real SemMap / WideSemMap / WideXHashSemMap for rwRatio 1,2,3, MaxInt/2+1, MaxInt and 1,2,3 shards; oracles: per-key holder counters at every entry, arrival-order (a call issued after another was observed queued must not be admitted while that one still waits), failed acquire never enters, deadlock = lost hand-off, entry residue at every scheduling decision and at the end, leaked-token probe; mass admission (a writer releases with 3..33 = rwRatio readers queued: one release admits them all); distinct = (status, who entered with which holder counts) signatures")
 	r.Assume("vsync model of sync.Mutex, close-broadcast channels and select", "scenario bodies are data-race free")
 	mc.Main(r, scenarios())
 }
